@@ -16,6 +16,9 @@
 EXTENDS Naturals, Sequences, FiniteSets
 
 CONSTANTS Buf,        \* line-buffer-size
+          Modes,      \* process-wide modes read off the command line of the calling git (a set of names):
+                      \*  "word-diff"  git diff/show/log --word-diff / --color-words: hunk lines carry no marker
+                      \*               column; each is written as it came, as an unchanged line (is_word_diff)
           ColorOnly,  \* --color-only: every input line is written as one output line (git's interactive.diffFilter);
                       \* header lines are then written where they stand instead of being composed into one file header
           Fixes       \* which repaired defects the modelled tree contains (a set of names):
@@ -156,7 +159,11 @@ EmitHH(s) == IF s.hh = 0 THEN s ELSE [Direct(Emit(Flush(s)), Row("hunkHdr", s.hh
 HHunkLine(s, k, line) ==
   LET s0 == IF Len(s.mb) > Buf \/ Len(s.pb) > Buf THEN Flush(s) ELSE s
       s1 == EmitHH(s0)
-      s2 == CASE line.c \in {"minus", "minus3"} ->
+      s2 == IF "word-diff" \in Modes /\ line.c \in {"minus", "plus", "zero", "minus3", "plus3"} THEN
+                   \* new_line_state: HunkZero with the raw line; paint_zero_line writes it unstyled, unhighlighted
+                   LET a == Flush(s1) IN CountLine([a EXCEPT !.ob = Append(@, Row("raw", k, <<>>)), !.st = "HunkZero"])
+            ELSE
+            CASE line.c \in {"minus", "minus3"} ->
                    LET a == IF s1.st = "HunkPlus" THEN Flush(s1) ELSE s1
                    IN CountLine([a EXCEPT !.mb = Append(@, k), !.st = "HunkMinus"])
               [] line.c \in {"plus", "plus3"} -> [s1 EXCEPT !.pb = Append(@, k), !.st = "HunkPlus"]
